@@ -194,7 +194,8 @@ namespace GeographicLib {
                                       real& BX, real& BY, real& BZ,
                                       real& BXt, real& BYt, real& BZt) const {
     t -= _t0;
-    int n = max(min(int(floor(t / _dt0)), _nNmodels - 1), 0);
+    // Clamp before converting to int (t may be NaN, which gives 0, infinite or huge)
+    int n = int(fmin(real(_nNmodels - 1), fmax(real(0), floor(t / _dt0))));
     bool interpolate = n + 1 < _nNmodels;
     t -= n * _dt0;
     // Components in geocentric basis
@@ -240,7 +241,8 @@ namespace GeographicLib {
 
   MagneticCircle MagneticModel::Circle(real t, real lat, real h) const {
     real t1 = t - _t0;
-    int n = max(min(int(floor(t1 / _dt0)), _nNmodels - 1), 0);
+    // Clamp before converting to int (t1 may be NaN, which gives 0, infinite or huge)
+    int n = int(fmin(real(_nNmodels - 1), fmax(real(0), floor(t1 / _dt0))));
     bool interpolate = n + 1 < _nNmodels;
     t1 -= n * _dt0;
     real X, Y, Z, M[Geocentric::dim2_];
